@@ -313,9 +313,14 @@ func (g *c12Gen) lambda(d int) (*jast.Lambda, int) {
 		params = append(params, pool[(i+r2)%3])
 	}
 	var body jast.Node
-	switch r.Intn(4) {
+	switch r.Intn(6) {
 	case 0:
 		body = g.block(d + 1)
+	case 4, 5:
+		// the body is a bare assignment (no block of its own): the binding must
+		// live in the call's frame, not in the frame the function was defined in
+		g.tags["lambda-body-bare-assignment"] = true
+		body = &jast.Assign{Name: c12Vars[r.Intn(len(c12Vars))], Val: g.num(d + 1)}
 	case 1:
 		// returns a closure
 		g.tags["returns-closure"] = true
